@@ -13,6 +13,7 @@ CONSTANTS
   MaxLoss = 1
   MaxDup = 1
   MaxPopCalls = 2
+  MaxMidFlush = 1
   Algo = "ring"
   Impl = "asis"
   Sampling = FALSE
